@@ -63,7 +63,9 @@ type vfC07Sys struct {
 
 	history      []string
 	asyncFlushes int
-	requests     int
+	// noAwait makes record return without waiting for a flush it started.
+	noAwait  bool
+	requests int
 
 	// what the history has gone through (for classes / non-trivial)
 	didRotate, didRotateDrop, didRestart, didClear, didDisable bool
@@ -205,7 +207,9 @@ func (s *vfC07Sys) record(r *vfC07Rec, gap time.Duration) {
 		s.l.bufferLock.Unlock()
 	}
 	s.l.fileFlushLock.Unlock()
-	s.awaitFlush()
+	if !s.noAwait {
+		s.awaitFlush()
+	}
 
 	if !s.enabled {
 		return
@@ -231,8 +235,10 @@ func (s *vfC07Sys) awaitFlush() {
 			break
 		}
 		waited = true
-		if time.Since(start) > 20*time.Second {
-			s.tb.Fatalf("VERIF-INCONCLUSIVE the flush started by Add did not finish in 20 s")
+		if time.Since(start) > 60*time.Second {
+			// nothing else is running: this is not slowness
+			s.tb.Fatalf("a flush of the memory buffer has been pending for 60 s with nothing else going on: no later flush can start and "+
+				"further queries will overwrite each other in the memory buffer\nhistory: %s", strings.Join(s.history, "; "))
 		}
 		runtime.Gosched()
 		time.Sleep(20 * time.Microsecond)
